@@ -284,6 +284,11 @@ def task_topup_labels(pr, repo):
     C08.task_topup(pr, repo)
 
 
+def task_chain_starts(pr, repo):
+    from . import reader
+    reader.task_nterm(pr, repo)
+
+
 def run(pr, repo):
     pr.level = 'other'
     pr.explanation = ('deductive core (VC + frame census) plus bounded relabelling monitor; level "other" because the insertion-code '
@@ -295,7 +300,10 @@ def run(pr, repo):
                  # bonds and disulfide flags are decided by elements and distance only - residue labels are symbolic there
                  (task_bond_labels, ()), (task_bond_path_labels, ()), (task_pair_order_labels, ()), (task_intrinsic, ()),
                  # options that name residues are relabelled with the structure: negative numbers, any chain character
-                 (task_option_parse, ()), (task_topup_labels, ())])
+                 (task_option_parse, ()), (task_topup_labels, ()),
+                 # where a chain starts is decided by comparing residue identifiers as a whole (chain, number, insertion code) for
+                 # equality - never by the number alone, which collides under renumbering (record automaton, ATOM N / OXT steps)
+                 (task_chain_starts, ())])
     for f, allowed in READERS.items():
         frames.clause(pr, repo, 'readers of .%s are the declared ones' % f, f, 'readers', allowed)
     pr.assumptions += ['atom order (changed by relabelling through the sort key) only permutes commutative sums: A-REAL',
@@ -348,6 +356,8 @@ def bounded(pr):
             first_b = min(int(l[22:26]) for l in lines if l[:6] == 'ATOM  ' and l[21] == b)
             edits.append(('second chain renumbered to start at the last number of the first', dict(shift={b: last_a - first_b})))
             edits.append(('second chain renamed to the lower-case letter of the first', dict(chain_map={a: 'H', b: 'h'})))
+            edits.append(('no TER records (terminal oxygens end the chains), second chain renumbered to start at the last number of the first',
+                          dict(shift={b: last_a - first_b}, noter=True)))
         has_icode = any(l[26] != ' ' for l in lines if l[:6] in ('ATOM  ', 'HETATM'))
         if has_icode:
             edits.append(('insertion-coded residues renumbered sequentially', dict(seq_icodes=True)))
@@ -355,10 +365,16 @@ def bounded(pr):
             ev += 1
             classes.add(what)
             try:
-                got = native.record(native.run_text(relabel(lines, **kw)), with_label=False)
+                kw = dict(kw)
+                ref_here = ref
+                src = lines
+                if kw.pop('noter', False):
+                    src = [l for l in lines if not l.startswith('TER')]
+                    ref_here = native.record(native.run_text(src), with_label=False)
+                got = native.record(native.run_text(relabel(src, **kw)), with_label=False)
                 d = []
-                for conf in ref:
-                    a, b = ref[conf], got.get(conf, [])
+                for conf in ref_here:
+                    a, b = ref_here[conf], got.get(conf, [])
                     if len(a) != len(b):
                         d.append('%s: %d vs %d groups' % (conf, len(a), len(b)))
                         continue
